@@ -176,6 +176,13 @@ def explain(o, inp, verdict, errs):
     if (verdict == "violation:no-position-on-the-fault-line" and inp["origin"].startswith("inject-swap:") and errs
             and re.search(r"Type 'Union\[[^']*\]' is undefined", errs[0]) and re.search(r"\[[^\]]*\"zq\"", inp["src"].split("\n")[inp["fault_line"] - 1])):
         return "KF-C19-3"
+    # the swapped literal is the whole value of an UNANNOTATED definition: the line is valid by itself, the conflict is reported where the
+    # variable is first used at its old type (that line is marked; the definition line is quoted as context only)
+    if verdict == "violation:no-position-on-the-fault-line" and inp["origin"].startswith("inject-swap:") and errs:
+        m = re.match(r'^\s*def (?:fin )?(\w+) := "zq"\s*$', inp["src"].split("\n")[inp["fault_line"] - 1])
+        marked = [n for d in o["diags"] for n in d.get("marked", [])]
+        if m and marked and all(n > inp["fault_line"] for n in marked) and all(re.search(r"\b%s\b" % re.escape(m.group(1)), o["src"]["lines"][n - 1]) for n in marked):
+            return "KF-C19-4"
     return None
 
 
